@@ -141,11 +141,12 @@ Definition check_ops2 (c : ops2_case) : N :=
     sortedb db && list_eqb res_eqb (map snd ors1) rs1 && diff_obs_eqb a1 u1 dl1 df1 && smap_eqb after1 m1
     && list_eqb res_eqb (map snd ors2) rs2 && diff_obs_eqb a2 u2 dl2 df2 && smap_eqb after2 m2
     && smap_eqb reverted2 (apply_writes (revert_writes df2) m2) in
-  (* oracle: reads keep being those of the one map with all staged writes applied; each Commit writes that map; the diff
-     of a store that was not re-created is cumulative: reverting the second diff gives back the ORIGINAL database *)
+  (* oracle = the property as stated: reads keep being those of the one map with all staged writes applied; each Commit
+     writes that map; reversing the diff returned by a Commit restores the PREVIOUS database contents, i.e. the contents
+     right before that Commit's batch was written (for the second Commit: the map after the first) *)
   let agree_spec :=
     list_eqb res_eqb (map snd ors1) srs1 && smap_eqb after1 (s_map s1)
-    && list_eqb res_eqb (map snd ors2) srs2 && smap_eqb after2 (s_map s2) && smap_eqb reverted2 db in
+    && list_eqb res_eqb (map snd ors2) srs2 && smap_eqb after2 (s_map s2) && smap_eqb reverted2 (s_map s1) in
   code agree_model agree_spec.
 
 (* ---- two diffdb.Database roots (own caches) over one store, used interleaved, committed one after the other:
